@@ -10,9 +10,6 @@ type Subscription { a: Query b: Query x: Int s: Subscription }
 directive @defer(label: String, if: Boolean! = true) on FRAGMENT_SPREAD | INLINE_FRAGMENT
 """
 
-# known-finding classes (narrow, decidable on the case)
-CLS_CYCLE_OVERFLOW = "fragment_cycles_recursion_unguarded"
-
 
 def staged(ctx, impl, model, family, dump_family, sources, compare=None, extra=None):
     """two-stage tie: the real parser/builder dumps the AST/Schema of each source text; the model family
@@ -101,7 +98,7 @@ def pipeline_cases(ctx, quick, graph_sources):
         add("malformed-schema", m, "{ x }")
         add("malformed-doc", "type Query { x: Int a: Query }", m)
     for label, s, d, depth in G.overflow_sources(quick):
-        add(label, s, d, spread_depth=depth)
+        add(label, s, d)
     return cases
 
 
@@ -134,13 +131,7 @@ def run_pipeline(ctx, impl, model, cases, family_label="c21_pipeline", timeout=1
         lines.append(line)
         meta[line] = dict(m, label=label)
 
-    def classify(c, iobs, mobs):
-        # detect_fragment_cycles: (fragments on a spread path) x (nesting of each definition) native frames
-        if (iobs.startswith("died") or iobs == "timeout") and meta[c].get("spread_depth", 0) > 5000:
-            return CLS_CYCLE_OVERFLOW
-        return None
-
-    rows = ctx.correspond(impl, model, "c21_pipeline", lines, classify=classify,
+    rows = ctx.correspond(impl, model, "c21_pipeline", lines,
                           compare=lambda i, m: i.startswith("ok "),
                           nontrivial=lambda c, o: True,
                           describe=lambda c: "%s (stack %s KiB)\n--- schema\n%s\n--- document\n%s" % (
